@@ -19,87 +19,132 @@ import (
 )
 
 type tables struct {
-	LegacySigned        []string `json:"legacySigned"`
-	DynSigned           []string `json:"dynSigned"`
-	LegacyHashed        []string `json:"legacyHashed"`
-	DynHashed           []string `json:"dynHashed"`
-	HeaderSignedWithFee []string `json:"headerSignedWithFee"`
-	HeaderSignedNoFee   []string `json:"headerSignedNoFee"`
-	MaxClauses          int      `json:"maxClauses"`
-	MaxUnused           int      `json:"maxUnused"`
+	LegacySigned        []string  `json:"legacySigned"`
+	DynSigned           []string  `json:"dynSigned"`
+	LegacyHashed        []string  `json:"legacyHashed"`
+	DynHashed           []string  `json:"dynHashed"`
+	HeaderSignedWithFee []string  `json:"headerSignedWithFee"`
+	HeaderSignedNoFee   []string  `json:"headerSignedNoFee"`
+	MaxClauses          int       `json:"maxClauses"`
+	MaxUnused           int       `json:"maxUnused"`
+	HeaderBases         []hdrBase `json:"headerBases"`
+	TxBases             []txBase  `json:"txBases"`
+}
+
+// boundary values of a base header (Codec.tla HeaderBases) and the fields the specification says are signed for it
+type hdrBase struct {
+	BaseFee string   `json:"baseFee"` // absent | zero | one | large
+	Alpha   string   `json:"alpha"`   // empty | nonempty
+	Com     bool     `json:"com"`
+	Gas     string   `json:"gas"` // zero | nonzero (gasLimit and gasUsed)
+	Signed  []string `json:"signed"`
+}
+
+// boundary values of a base tx (Codec.tla TxBases)
+type txBase struct {
+	Type       string   `json:"type"` // legacy | dynfee
+	Fees       string   `json:"fees"`
+	Expiration string   `json:"expiration"`
+	Nonce      string   `json:"nonce"`
+	Clauses    string   `json:"clauses"`   // empty | two
+	DependsOn  string   `json:"dependsOn"` // nil | set
+	Delegated  bool     `json:"delegated"`
+	Signed     []string `json:"signed"`
+	Hashed     []string `json:"hashed"`
 }
 
 type perturbTx struct {
 	name string
 	f    func(*txFields)
+	ok   func(*txFields) bool // applicable to this base? (nil: always)
 }
 
-// one-step perturbations of a tx field (several per field where the field is structured)
+// one-step perturbations of a tx field (several per field where the field is structured), including the steps across
+// the boundary values (0 <-> 1, nil <-> set, empty <-> non-empty)
 func txPerturbations(g *gen, field string, typ byte) []perturbTx {
 	bump := func(b *big.Int) *big.Int { return new(big.Int).Add(b, big.NewInt(1)) }
+	two := func(f *txFields) bool { return len(f.clauses) >= 2 }
+	some := func(f *txFields) bool { return len(f.clauses) >= 1 }
 	switch field {
 	case "chainTag":
-		return []perturbTx{{"chainTag+1", func(f *txFields) { f.chainTag++ }}}
+		return []perturbTx{{"chainTag+1", func(f *txFields) { f.chainTag++ }, nil}}
 	case "blockRef":
-		return []perturbTx{{"blockRef.lastbyte", func(f *txFields) { f.blockRef[7] ^= 1 }}, {"blockRef.firstbyte", func(f *txFields) { f.blockRef[0] ^= 0x80 }}}
+		return []perturbTx{{"blockRef.lastbyte", func(f *txFields) { f.blockRef[7] ^= 1 }, nil}, {"blockRef.firstbyte", func(f *txFields) { f.blockRef[0] ^= 0x80 }, nil}}
 	case "expiration":
-		return []perturbTx{{"expiration+1", func(f *txFields) { f.exp++ }}}
+		return []perturbTx{{"expiration+1", func(f *txFields) { f.exp++ }, nil},
+			{"expiration=0", func(f *txFields) { f.exp = 0 }, func(f *txFields) bool { return f.exp != 0 }}}
 	case "clauses":
 		return []perturbTx{
-			{"clauses.append", func(f *txFields) { f.clauses = append(append([]*tx.Clause{}, f.clauses...), tx.NewClause(nil)) }},
-			{"clauses.droplast", func(f *txFields) { f.clauses = f.clauses[:len(f.clauses)-1] }},
+			{"clauses.append", func(f *txFields) { f.clauses = append(append([]*tx.Clause{}, f.clauses...), tx.NewClause(nil)) }, nil},
+			{"clauses.droplast", func(f *txFields) { f.clauses = f.clauses[:len(f.clauses)-1] }, some},
+			{"clauses.empty", func(f *txFields) { f.clauses = nil }, some},
 			{"clauses.swap", func(f *txFields) {
 				c := append([]*tx.Clause{}, f.clauses...)
 				c[0], c[1] = c[1], c[0]
 				f.clauses = c
-			}},
+			}, two},
 			{"clause.to.nil", func(f *txFields) {
 				c := append([]*tx.Clause{}, f.clauses...)
 				c[0] = tx.NewClause(nil).WithValue(c[0].Value()).WithData(c[0].Data())
 				f.clauses = c
-			}},
+			}, two},
 			{"clause.to.bit", func(f *txFields) {
 				c := append([]*tx.Clause{}, f.clauses...)
 				a := *c[0].To()
 				a[19] ^= 1
 				c[0] = tx.NewClause(&a).WithValue(c[0].Value()).WithData(c[0].Data())
 				f.clauses = c
-			}},
+			}, two},
 			{"clause.value+1", func(f *txFields) {
 				c := append([]*tx.Clause{}, f.clauses...)
 				c[1] = c[1].WithValue(bump(c[1].Value()))
 				f.clauses = c
-			}},
+			}, two},
+			{"clause.value.0->1", func(f *txFields) {
+				c := append([]*tx.Clause{}, f.clauses...)
+				c[0] = c[0].WithValue(bump(c[0].Value()))
+				f.clauses = c
+			}, two},
 			{"clause.data.bit", func(f *txFields) {
 				c := append([]*tx.Clause{}, f.clauses...)
 				d := c[1].Data()
 				d[len(d)-1] ^= 1
 				c[1] = c[1].WithData(d)
 				f.clauses = c
-			}},
+			}, two},
 			{"clause.data.append0", func(f *txFields) {
 				c := append([]*tx.Clause{}, f.clauses...)
 				c[1] = c[1].WithData(append(c[1].Data(), 0))
 				f.clauses = c
-			}},
+			}, two},
+			{"clause.data.empty->0x00", func(f *txFields) {
+				c := append([]*tx.Clause{}, f.clauses...)
+				c[0] = c[0].WithData([]byte{0})
+				f.clauses = c
+			}, two},
 		}
 	case "gasPriceCoef":
-		return []perturbTx{{"gasPriceCoef+1", func(f *txFields) { f.coef++ }}}
+		return []perturbTx{{"gasPriceCoef+1", func(f *txFields) { f.coef++ }, nil}}
 	case "maxPriorityFeePerGas":
-		return []perturbTx{{"maxPriorityFeePerGas+1", func(f *txFields) { f.maxPrio = bump(f.maxPrio) }}}
+		return []perturbTx{{"maxPriorityFeePerGas+1", func(f *txFields) { f.maxPrio = bump(f.maxPrio) }, nil},
+			{"maxPriorityFeePerGas=0", func(f *txFields) { f.maxPrio = new(big.Int) }, func(f *txFields) bool { return f.maxPrio.Sign() != 0 }}}
 	case "maxFeePerGas":
-		return []perturbTx{{"maxFeePerGas+1", func(f *txFields) { f.maxFee = bump(f.maxFee) }}}
+		return []perturbTx{{"maxFeePerGas+1", func(f *txFields) { f.maxFee = bump(f.maxFee) }, nil},
+			{"maxFeePerGas=0", func(f *txFields) { f.maxFee = new(big.Int) }, func(f *txFields) bool { return f.maxFee.Sign() != 0 }}}
 	case "gas":
-		return []perturbTx{{"gas+1", func(f *txFields) { f.gas++ }}}
+		return []perturbTx{{"gas+1", func(f *txFields) { f.gas++ }, nil}}
 	case "dependsOn":
+		set := func(f *txFields) bool { return f.dependsOn != nil }
 		return []perturbTx{
-			{"dependsOn.bit", func(f *txFields) { d := *f.dependsOn; d[31] ^= 1; f.dependsOn = &d }},
-			{"dependsOn.nil", func(f *txFields) { f.dependsOn = nil }},
+			{"dependsOn.bit", func(f *txFields) { d := *f.dependsOn; d[31] ^= 1; f.dependsOn = &d }, set},
+			{"dependsOn.nil", func(f *txFields) { f.dependsOn = nil }, set},
+			{"dependsOn.set(zero hash)", func(f *txFields) { f.dependsOn = &thor.Bytes32{} }, func(f *txFields) bool { return f.dependsOn == nil }},
 		}
 	case "nonce":
-		return []perturbTx{{"nonce+1", func(f *txFields) { f.nonce++ }}}
+		return []perturbTx{{"nonce+1", func(f *txFields) { f.nonce++ }, nil},
+			{"nonce=0", func(f *txFields) { f.nonce = 0 }, func(f *txFields) bool { return f.nonce != 0 }}}
 	case "reserved":
-		return []perturbTx{{"reserved.features", func(f *txFields) { f.features ^= tx.DelegationFeature }}}
+		return []perturbTx{{"reserved.features", func(f *txFields) { f.features ^= tx.DelegationFeature }, nil}}
 	}
 	return nil
 }
@@ -107,40 +152,45 @@ func txPerturbations(g *gen, field string, typ byte) []perturbTx {
 type perturbHdr struct {
 	name string
 	f    func(*headerFields)
-	need string // "fee" / "alpha": only applicable to a header that has one
+	ok   func(*headerFields) bool // applicable to this base? (nil: always)
 }
 
 func headerPerturbations(field string) []perturbHdr {
+	hasAlpha := func(f *headerFields) bool { return len(f.alpha) > 0 }
+	hasFee := func(f *headerFields) bool { return f.baseFee != nil }
+	posFee := func(f *headerFields) bool { return f.baseFee != nil && f.baseFee.Sign() > 0 }
 	switch field {
 	case "parentID":
 		// the first 4 bytes are the number, part of the id directly; the rest is hashed
-		return []perturbHdr{{"parentID.lastbyte", func(f *headerFields) { f.parent[31] ^= 1 }, ""}, {"parentID.number", func(f *headerFields) { f.parent[3] ^= 1 }, ""}}
+		return []perturbHdr{{"parentID.lastbyte", func(f *headerFields) { f.parent[31] ^= 1 }, nil}, {"parentID.number", func(f *headerFields) { f.parent[3] ^= 1 }, nil}}
 	case "timestamp":
-		return []perturbHdr{{"timestamp+1", func(f *headerFields) { f.ts++ }, ""}}
+		return []perturbHdr{{"timestamp+1", func(f *headerFields) { f.ts++ }, nil}}
 	case "gasLimit":
-		return []perturbHdr{{"gasLimit+1", func(f *headerFields) { f.gasLimit++ }, ""}}
+		return []perturbHdr{{"gasLimit+1", func(f *headerFields) { f.gasLimit++ }, nil}}
 	case "beneficiary":
-		return []perturbHdr{{"beneficiary.bit", func(f *headerFields) { f.beneficiary[0] ^= 1 }, ""}}
+		return []perturbHdr{{"beneficiary.bit", func(f *headerFields) { f.beneficiary[0] ^= 1 }, nil}}
 	case "gasUsed":
-		return []perturbHdr{{"gasUsed+1", func(f *headerFields) { f.gasUsed++ }, ""}}
+		return []perturbHdr{{"gasUsed+1", func(f *headerFields) { f.gasUsed++ }, nil}}
 	case "totalScore":
-		return []perturbHdr{{"totalScore+1", func(f *headerFields) { f.score++ }, ""}}
+		return []perturbHdr{{"totalScore+1", func(f *headerFields) { f.score++ }, nil}}
 	case "txsRootFeatures":
 		return []perturbHdr{
-			{"txsRoot (one more tx)", func(f *headerFields) { f.txs = append(append(tx.Transactions{}, f.txs...), f.txs[0]) }, ""},
-			{"txsFeatures", func(f *headerFields) { f.txFeatures ^= tx.DelegationFeature }, ""},
+			{"txsRoot (one more tx)", func(f *headerFields) { f.txs = append(append(tx.Transactions{}, f.txs...), f.txs[0]) }, nil},
+			{"txsFeatures", func(f *headerFields) { f.txFeatures ^= tx.DelegationFeature }, nil},
 		}
 	case "stateRoot":
-		return []perturbHdr{{"stateRoot.bit", func(f *headerFields) { f.stateRoot[5] ^= 1 }, ""}}
+		return []perturbHdr{{"stateRoot.bit", func(f *headerFields) { f.stateRoot[5] ^= 1 }, nil}}
 	case "receiptsRoot":
-		return []perturbHdr{{"receiptsRoot.bit", func(f *headerFields) { f.rcRoot[31] ^= 0x80 }, ""}}
+		return []perturbHdr{{"receiptsRoot.bit", func(f *headerFields) { f.rcRoot[31] ^= 0x80 }, nil}}
 	case "extension":
 		return []perturbHdr{
-			{"alpha.bit", func(f *headerFields) { a := append([]byte{}, f.alpha...); a[0] ^= 1; f.alpha = a }, "alpha"},
-			{"alpha.empty", func(f *headerFields) { f.alpha = nil }, "alpha"},
-			{"com", func(f *headerFields) { f.com = !f.com }, ""},
-			{"baseFee+1", func(f *headerFields) { f.baseFee = new(big.Int).Add(f.baseFee, big.NewInt(1)) }, "fee"},
-			{"baseFee+2^64", func(f *headerFields) { f.baseFee = new(big.Int).Add(f.baseFee, new(big.Int).Lsh(big.NewInt(1), 64)) }, "fee"},
+			{"alpha.bit", func(f *headerFields) { a := append([]byte{}, f.alpha...); a[0] ^= 1; f.alpha = a }, hasAlpha},
+			{"alpha.empty", func(f *headerFields) { f.alpha = nil }, hasAlpha},
+			{"alpha.set", func(f *headerFields) { f.alpha = []byte{7} }, func(f *headerFields) bool { return len(f.alpha) == 0 }},
+			{"com", func(f *headerFields) { f.com = !f.com }, nil},
+			{"baseFee+1", func(f *headerFields) { f.baseFee = new(big.Int).Add(f.baseFee, big.NewInt(1)) }, hasFee},
+			{"baseFee+2^64", func(f *headerFields) { f.baseFee = new(big.Int).Add(f.baseFee, new(big.Int).Lsh(big.NewInt(1), 64)) }, hasFee},
+			{"baseFee=0", func(f *headerFields) { f.baseFee = new(big.Int) }, posFee},
 		}
 	}
 	return nil
@@ -172,168 +222,220 @@ func runIDBind(tablesPath string, seed int64, out string) {
 	var o Obs
 	ok := guard("idbind", &o, func() {
 		// ------------------------------------------------------------------ transactions
-		for _, cfg := range []struct {
-			typ    byte
-			signed []string
-			hashed []string
-			label  string
-		}{{tx.TypeLegacy, tb.LegacySigned, tb.LegacyHashed, "legacy"}, {tx.TypeDynamicFee, tb.DynSigned, tb.DynHashed, "dynfee"}} {
-			for _, delegated := range []bool{false, true} {
-				f := g.txFields()
-				f.typ = cfg.typ
+		// every base object of the specification's TxBases (boundary values) x every signed field x every applicable step
+		if len(tb.TxBases) == 0 || len(tb.HeaderBases) == 0 {
+			fatal("tables carry no boundary base objects")
+		}
+		pick := func(which string, zero, nonzero uint64) uint64 {
+			if which == "zero" {
+				return zero
+			}
+			return nonzero
+		}
+		for _, bs := range tb.TxBases {
+			f := g.txFields()
+			f.typ = tx.TypeLegacy
+			if bs.Type == "dynfee" {
+				f.typ = tx.TypeDynamicFee
+			}
+			label := fmt.Sprintf("%s tx fees=%s expiration=%s nonce=%s clauses=%s dependsOn=%s delegated=%v", bs.Type, bs.Fees, bs.Expiration,
+				bs.Nonce, bs.Clauses, bs.DependsOn, bs.Delegated)
+			f.exp = uint32(pick(bs.Expiration, 0, uint64(g.rng.Intn(1000)+1)))
+			f.nonce = pick(bs.Nonce, 0, g.rng.Uint64()|1)
+			f.coef = uint8(pick(bs.Fees, 0, uint64(g.rng.Intn(254)+1)))
+			f.maxFee, f.maxPrio = new(big.Int), new(big.Int)
+			if bs.Fees != "zero" {
+				f.maxFee = new(big.Int).SetBytes(g.bytes(g.rng.Intn(12) + 1))
+				f.maxFee.Add(f.maxFee, big.NewInt(1))
+				f.maxPrio = big.NewInt(int64(g.rng.Intn(1000) + 1))
+			}
+			f.clauses = nil
+			if bs.Clauses == "two" {
 				a1, a2 := g.addr(), g.addr()
-				f.clauses = []*tx.Clause{tx.NewClause(&a1).WithValue(big.NewInt(5)), tx.NewClause(&a2).WithValue(big.NewInt(7)).WithData(g.bytes(12))}
+				// the first clause sits on the boundaries itself: value 0, no data
+				f.clauses = []*tx.Clause{tx.NewClause(&a1), tx.NewClause(&a2).WithValue(big.NewInt(7)).WithData(g.bytes(12))}
+			}
+			f.dependsOn = nil
+			if bs.DependsOn == "set" {
 				d := g.b32()
 				f.dependsOn = &d
-				f.features = 0
-				if delegated {
-					f.features = tx.DelegationFeature
+			}
+			f.features = 0
+			if bs.Delegated {
+				f.features = tx.DelegationFeature
+			}
+			base := g.sign(f.build(), g.keys[0], g.keys[2])
+			if _, err := base.Origin(); err != nil {
+				fatal("base tx has no origin: %v", err)
+			}
+			signedSet := map[string]bool{}
+			for _, name := range bs.Signed {
+				signedSet[name] = true
+				ps := txPerturbations(g, name, f.typ)
+				if len(ps) == 0 {
+					fatal("tables name a signed tx field the driver cannot perturb: %s", name)
 				}
-				base := g.sign(f.build(), g.keys[0], g.keys[2])
-				if _, err := base.Origin(); err != nil {
-					fatal("base tx has no origin: %v", err)
-				}
-				signedSet := map[string]bool{}
-				for _, name := range cfg.signed {
-					signedSet[name] = true
-					ps := txPerturbations(g, name, cfg.typ)
-					if len(ps) == 0 {
-						fatal("tables name a signed tx field the driver cannot perturb: %s", name)
-					}
-					for _, p := range ps {
-						cp := *f
-						p.f(&cp)
-						unsigned := cp.build()
-						resigned := g.sign(unsigned, g.keys[0], g.keys[2])
-						kept := unsigned.WithSignature(base.Signature())
-						r.Evaluations++
-						where := fmt.Sprintf("tx.%s (%s, %s, delegated=%v)", name, p.name, cfg.label, delegated)
-						if unsigned.SigningHash() == base.SigningHash() {
-							dev("id-unbound:tx."+name, "signing hash unchanged after perturbing "+where)
-						}
-						if resigned.ID() == base.ID() {
-							dev("id-unbound:tx."+name, "id unchanged (same signer re-signs) after perturbing "+where)
-						}
-						if kept.ID() == base.ID() {
-							dev("id-unbound:tx."+name, "id unchanged (signature bytes kept) after perturbing "+where)
-						}
-						if resigned.Hash() == base.Hash() || kept.Hash() == base.Hash() {
-							dev("hash-unbound:tx."+name, "hash unchanged after perturbing "+where)
-						}
-						if len(r.Samples) < 3 {
-							r.Samples = append(r.Samples, map[string]any{"object": cfg.label + " tx", "perturbed": p.name, "id_before": base.ID().String(),
-								"id_after_resign": resigned.ID().String(), "id_after_keepsig": kept.ID().String()})
-						}
-					}
-				}
-				// fields that are hashed but not signed: the signature(s)
-				for _, name := range cfg.hashed {
-					if signedSet[name] {
+				applied := 0
+				for _, p := range ps {
+					if p.ok != nil && !p.ok(f) {
 						continue
 					}
-					if name != "signature" {
-						fatal("tables name a hashed-only tx field the driver cannot perturb: %s", name)
-					}
-					sig := base.Signature()
-					for _, pos := range []int{0, 40, 64, len(sig) - 1} {
-						s2 := append([]byte{}, sig...)
-						s2[pos] ^= 1
-						t2 := base.WithSignature(s2)
-						r.Evaluations++
-						if t2.Hash() == base.Hash() {
-							dev("hash-unbound:tx.signature", fmt.Sprintf("tx hash unchanged after flipping a bit of signature byte %d (%s, delegated=%v)", pos, cfg.label, delegated))
-						}
-						_ = t2.ID()
-						_, _ = t2.Origin()
-						_, _ = t2.Delegator()
-					}
-				}
-				// the id binds the origin: the same content signed by somebody else is a different tx
-				otherTx := g.sign(f.build(), g.keys[1], g.keys[2])
-				r.Evaluations++
-				if otherTx.ID() == base.ID() || otherTx.Hash() == base.Hash() {
-					dev("id-unbound:tx.origin", "tx id/hash unchanged with a different origin ("+cfg.label+")")
-				}
-				// unused reserved slot: not reachable through the builder, spliced into the encoding
-				if u := g.withUnused(base); u != nil {
+					applied++
+					cp := *f
+					p.f(&cp)
+					unsigned := cp.build()
+					resigned := g.sign(unsigned, g.keys[0], g.keys[2])
+					kept := unsigned.WithSignature(base.Signature())
 					r.Evaluations++
-					if u.SigningHash() == base.SigningHash() || u.ID() == base.ID() || u.Hash() == base.Hash() {
-						dev("id-unbound:tx.reserved", "id/hash unchanged after adding an unused reserved slot ("+cfg.label+")")
+					where := fmt.Sprintf("tx.%s (%s; base: %s)", name, p.name, label)
+					if unsigned.SigningHash() == base.SigningHash() {
+						dev("id-unbound:tx."+name, "signing hash unchanged after perturbing "+where)
 					}
+					if resigned.ID() == base.ID() {
+						dev("id-unbound:tx."+name, "id unchanged (same signer re-signs) after perturbing "+where)
+					}
+					if kept.ID() == base.ID() {
+						dev("id-unbound:tx."+name, "id unchanged (signature bytes kept) after perturbing "+where)
+					}
+					if resigned.Hash() == base.Hash() || kept.Hash() == base.Hash() {
+						dev("hash-unbound:tx."+name, "hash unchanged after perturbing "+where)
+					}
+					if len(r.Samples) < 2 {
+						r.Samples = append(r.Samples, map[string]any{"base": label, "perturbed": p.name, "id_before": base.ID().String(),
+							"id_after_resign": resigned.ID().String(), "id_after_keepsig": kept.ID().String()})
+					}
+				}
+				if applied == 0 {
+					fatal("no applicable perturbation of tx.%s for base %s", name, label)
+				}
+			}
+			// fields that are hashed but not signed: the signature(s)
+			for _, name := range bs.Hashed {
+				if signedSet[name] {
+					continue
+				}
+				if name != "signature" {
+					fatal("tables name a hashed-only tx field the driver cannot perturb: %s", name)
+				}
+				sig := base.Signature()
+				for _, pos := range []int{0, 40, 64, len(sig) - 1} {
+					s2 := append([]byte{}, sig...)
+					s2[pos] ^= 1
+					t2 := base.WithSignature(s2)
+					r.Evaluations++
+					if t2.Hash() == base.Hash() {
+						dev("hash-unbound:tx.signature", fmt.Sprintf("tx hash unchanged after flipping a bit of signature byte %d (%s)", pos, label))
+					}
+					_ = t2.ID()
+					_, _ = t2.Origin()
+					_, _ = t2.Delegator()
+				}
+			}
+			// the id binds the origin: the same content signed by somebody else is a different tx
+			otherTx := g.sign(f.build(), g.keys[1], g.keys[2])
+			r.Evaluations++
+			if otherTx.ID() == base.ID() || otherTx.Hash() == base.Hash() {
+				dev("id-unbound:tx.origin", "tx id/hash unchanged with a different origin ("+label+")")
+			}
+			// unused reserved slot: not reachable through the builder, spliced into the encoding
+			if u := g.withUnused(base); u != nil {
+				r.Evaluations++
+				if u.SigningHash() == base.SigningHash() || u.ID() == base.ID() || u.Hash() == base.Hash() {
+					dev("id-unbound:tx.reserved", "id/hash unchanged after adding an unused reserved slot ("+label+")")
 				}
 			}
 		}
 		// ------------------------------------------------------------------ headers
-		for _, cfg := range []struct {
-			fee    int
-			signed []string
-			label  string
-		}{{1, tb.HeaderSignedWithFee, "header with base fee"}, {0, tb.HeaderSignedNoFee, "header without base fee"}} {
-			for rep := 0; rep < 2; rep++ {
-				f := g.headerFields(cfg.fee)
-				f.txs = tx.Transactions{g.tx()}
-				if cfg.fee == 1 {
-					f.alpha = g.bytes(32)
+		// every base object of HeaderBases: base fee absent / 0 / 1 / large, alpha empty or not, COM, gas 0 or not
+		for _, bs := range tb.HeaderBases {
+			f := g.headerFields(0)
+			f.txs = tx.Transactions{g.tx()}
+			label := fmt.Sprintf("header baseFee=%s alpha=%s com=%v gas=%s", bs.BaseFee, bs.Alpha, bs.Com, bs.Gas)
+			switch bs.BaseFee {
+			case "absent":
+				f.baseFee = nil
+			case "zero":
+				f.baseFee = new(big.Int)
+			case "one":
+				f.baseFee = big.NewInt(1)
+			case "large":
+				f.baseFee = new(big.Int).Add(new(big.Int).SetBytes(g.bytes(20)), big.NewInt(1000))
+			default:
+				fatal("unknown baseFee boundary %q", bs.BaseFee)
+			}
+			f.alpha = nil
+			if bs.Alpha == "nonempty" {
+				f.alpha = g.bytes(32)
+			}
+			f.com = bs.Com
+			f.gasLimit = pick(bs.Gas, 0, g.rng.Uint64()|1)
+			f.gasUsed = pick(bs.Gas, 0, g.rng.Uint64()>>8|1)
+			complexSig := len(f.alpha) > 0
+			base := g.signBlock(f.build(), g.keys[0], complexSig)
+			if _, err := base.Header().Signer(); err != nil {
+				fatal("base header has no signer: %v", err)
+			}
+			if (base.Header().BaseFee() == nil) != (bs.BaseFee == "absent") || base.Header().COM() != bs.Com || (len(base.Header().Alpha()) == 0) != (bs.Alpha == "empty") {
+				fatal("base header does not have the boundary values asked for: %s", label)
+			}
+			for _, name := range bs.Signed {
+				ps := headerPerturbations(name)
+				if len(ps) == 0 {
+					fatal("tables name a signed header field the driver cannot perturb: %s", name)
 				}
-				complexSig := len(f.alpha) > 0
-				base := g.signBlock(f.build(), g.keys[0], complexSig)
-				if _, err := base.Header().Signer(); err != nil {
-					fatal("base header has no signer: %v", err)
-				}
-				for _, name := range cfg.signed {
-					ps := headerPerturbations(name)
-					if len(ps) == 0 {
-						fatal("tables name a signed header field the driver cannot perturb: %s", name)
+				applied := 0
+				for _, p := range ps {
+					if p.ok != nil && !p.ok(f) {
+						continue
 					}
-					for _, p := range ps {
-						if (p.need == "fee" && f.baseFee == nil) || (p.need == "alpha" && len(f.alpha) == 0) {
-							continue
-						}
-						cp := *f
-						p.f(&cp)
-						nb := cp.build()
-						resigned := g.signBlock(nb, g.keys[0], complexSig)
-						kept := nb.WithSignature(base.Header().Signature())
-						r.Evaluations++
-						where := fmt.Sprintf("header.%s (%s, %s)", name, p.name, cfg.label)
-						if nb.Header().SigningHash() == base.Header().SigningHash() {
-							dev("id-unbound:header."+name, "signing hash unchanged after perturbing "+where)
-						}
-						if resigned.Header().ID() == base.Header().ID() {
-							dev("id-unbound:header."+name, "block id unchanged (same signer re-signs) after perturbing "+where)
-						}
-						if kept.Header().ID() == base.Header().ID() {
-							dev("id-unbound:header."+name, "block id unchanged (signature bytes kept) after perturbing "+where)
-						}
-						if len(r.Samples) < 6 && p.name == "com" {
-							r.Samples = append(r.Samples, map[string]any{"object": cfg.label, "perturbed": p.name, "id_before": base.Header().ID().String(),
-								"id_after_resign": resigned.Header().ID().String()})
-						}
-					}
-				}
-				// the signature enters the id through the recovered signer: a change of the ECDSA part either changes the
-				// signer (hence the id) or makes Signer() fail
-				sig := base.Header().Signature()
-				for _, pos := range []int{0, 17, 31, 32, 50, 63} {
-					s2 := append([]byte{}, sig...)
-					s2[pos] ^= 1 << uint(pos%8)
-					h2 := base.WithSignature(s2).Header()
+					applied++
+					cp := *f
+					p.f(&cp)
+					nb := cp.build()
+					resigned := g.signBlock(nb, g.keys[0], complexSig)
+					kept := nb.WithSignature(base.Header().Signature())
 					r.Evaluations++
-					s0, _ := base.Header().Signer()
-					s1, err := h2.Signer()
-					if err == nil && s1 == s0 {
-						dev("id-unbound:header.signer", fmt.Sprintf("same signer recovered after flipping a bit of ECDSA signature byte %d (%s)", pos, cfg.label))
+					where := fmt.Sprintf("header.%s (%s; base: %s)", name, p.name, label)
+					if nb.Header().SigningHash() == base.Header().SigningHash() {
+						dev("id-unbound:header."+name, "signing hash unchanged after perturbing "+where)
 					}
-					if h2.ID() == base.Header().ID() {
-						dev("id-unbound:header.signer", fmt.Sprintf("block id unchanged after flipping a bit of ECDSA signature byte %d (%s)", pos, cfg.label))
+					if resigned.Header().ID() == base.Header().ID() {
+						dev("id-unbound:header."+name, "block id unchanged (same signer re-signs) after perturbing "+where)
+					}
+					if kept.Header().ID() == base.Header().ID() {
+						dev("id-unbound:header."+name, "block id unchanged (signature bytes kept) after perturbing "+where)
+					}
+					if len(r.Samples) < 4 && p.name == "com" && bs.BaseFee == "zero" {
+						r.Samples = append(r.Samples, map[string]any{"base": label, "perturbed": p.name, "id_before": base.Header().ID().String(),
+							"id_after_resign": resigned.Header().ID().String()})
 					}
 				}
-				// a different signer over the same content: different id
-				other := g.signBlock(f.build(), g.keys[1], complexSig)
+				if applied == 0 {
+					fatal("no applicable perturbation of header.%s for base %s", name, label)
+				}
+			}
+			// the signature enters the id through the recovered signer: a change of the ECDSA part either changes the
+			// signer (hence the id) or makes Signer() fail
+			sig := base.Header().Signature()
+			for _, pos := range []int{0, 17, 31, 32, 50, 63} {
+				s2 := append([]byte{}, sig...)
+				s2[pos] ^= 1 << uint(pos%8)
+				h2 := base.WithSignature(s2).Header()
 				r.Evaluations++
-				if other.Header().ID() == base.Header().ID() {
-					dev("id-unbound:header.signer", "block id unchanged with a different signer ("+cfg.label+")")
+				s0, _ := base.Header().Signer()
+				s1, err := h2.Signer()
+				if err == nil && s1 == s0 {
+					dev("id-unbound:header.signer", fmt.Sprintf("same signer recovered after flipping a bit of ECDSA signature byte %d (%s)", pos, label))
 				}
+				if h2.ID() == base.Header().ID() {
+					dev("id-unbound:header.signer", fmt.Sprintf("block id unchanged after flipping a bit of ECDSA signature byte %d (%s)", pos, label))
+				}
+			}
+			// a different signer over the same content: different id
+			other := g.signBlock(f.build(), g.keys[1], complexSig)
+			r.Evaluations++
+			if other.Header().ID() == base.Header().ID() {
+				dev("id-unbound:header.signer", "block id unchanged with a different signer ("+label+")")
 			}
 		}
 		// ------------------------------------------------------------------ roots commit to the ordered contents
